@@ -392,6 +392,16 @@ func TestC16Local(t *testing.T) {
 		Gen: func(t *rapid.T) localSpec {
 			used := map[string]bool{}
 			tb := sqlgen.GenTable(t, sqlgen.GenIdent(t, used, "tn"), sqlgen.Opts{MaxCols: 5, Conservative: rapid.IntRange(0, 3).Draw(t, "cons") > 0})
+			if len(tb.Cols) >= 2 && rapid.IntRange(0, 5).Draw(t, "twofk") == 0 {
+				// the same kind of clause on two elements, spelt differently
+				// (with and without the optional parts): what one of them
+				// leaves out must not be filled in from the other
+				forms := []string{"REFERENCES p (x)", "REFERENCES q", "REFERENCES p (y, z) ON DELETE CASCADE", "REFERENCES q ON UPDATE SET NULL", "REFERENCES r (x) DEFERRABLE INITIALLY DEFERRED", "REFERENCES q DEFERRABLE"}
+				i := rapid.IntRange(0, len(tb.Cols)-2).Draw(t, "fk1")
+				j := rapid.IntRange(i+1, len(tb.Cols)-1).Draw(t, "fk2")
+				tb.Cols[i].Cons = append(append([]string{}, tb.Cols[i].Cons...), rapid.SampledFrom(forms).Draw(t, "fkform1"))
+				tb.Cols[j].Cons = append(append([]string{}, tb.Cols[j].Cons...), rapid.SampledFrom(forms).Draw(t, "fkform2"))
+			}
 			s := localSpec{Table: tb}
 			n := len(tb.Cols)
 			if rapid.IntRange(0, 2).Draw(t, "isindex") == 0 {
